@@ -1,7 +1,7 @@
 (* Run/JudgeC06.v — case type and judge for the C06 correspondence run (grdp / mp_grdp / min_point_rdp against the
    fixed-size chain and the global-cost primitive). *)
 From Coq Require Import ZArith List Arith Bool PrimFloat.
-From Knee Require Import Num NumFloat NpList Model.Mapping Model.RdpFixed Model.RdpFixedSpec Run.JudgeC05.
+From Knee Require Import Num NumFloat NpList Model.Mapping Model.RdpFixed Model.RdpFixedPrio Model.RdpFixedSpec Run.JudgeC05.
 From Knee Require Export Model.RdpFixed.
 Import ListNotations.
 
@@ -16,19 +16,27 @@ Inductive query :=
   | QMp (t : float) (m : nat) (out : out_t)              (* rdp.mp_grdp(points, t, m, distance, cost, order) *)
   | QMin (ts : list float) (m : nat) (out : out_t).      (* rdp.min_point_rdp(points, ts, m)   (default configuration) *)
 
+(* one curve x one configuration:
+   chain = [rdp_fixed(points, k, distance, order)[0] for k in 2..n] as returned by the implementation (on a fresh copy);
+   pts = the curve; dt / ct = distance and chord tables, rt = residuals as the library returns them: priorities are DERIVED
+   (JudgeC05.prio_fn); gt = evaluation.compute_global_cost(points, S, cost) with a fresh cache, for every member S of the chain *)
+Inductive part :=
+  | PG (n : nat) (is_r2 : bool) (ord : order) (pts : pts_t) (dt : dtab_t) (ct rt : ptab_t) (gt : gtab_t)
+       (chain : list (list nat)) (qs : list query).
 Inductive case :=
-  (* chain = [rdp_fixed(points, k, distance, order)[0] for k in 2..n] as returned by the implementation;
-     dt / ct / rt = distance, chord and residual tables: priorities are DERIVED from them (JudgeC05.prio_fn);
-     gt = evaluation.compute_global_cost(points, S, cost) with a fresh cache, for every member S of the chain *)
-  | CG (n : nat) (is_r2 : bool) (ord : order) (dt : dtab_t) (ct rt : ptab_t) (gt : gtab_t) (chain : list (list nat)) (qs : list query).
+  | CG (n : nat) (is_r2 : bool) (ord : order) (pts : pts_t) (dt : dtab_t) (ct rt : ptab_t) (gt : gtab_t)
+       (chain : list (list nat)) (qs : list query)
+  (* same-object stream: a SEQUENCE of calls with different configurations (and curves refilled in place) issued on ONE array
+     object; the calls are grouped by (curve, configuration), every call is judged; tables come from fresh copies *)
+  | CSeq (parts : list part).
 
 Section Q.
-  Variables (n : nat) (is_r2 : bool) (ord : order) (dt : dtab_t) (ct rt : ptab_t) (gt : gtab_t).
+  Variables (n : nat) (is_r2 : bool) (ord : order) (pts : pts_t) (dt : dtab_t) (ct : ptab_t) (gt : gtab_t).
   Definition m_query (q : query) : out_t :=
     match q with
-    | QGrdp t _ => @grdp FloatNum n f_eps (dist_of dt) (prio_fn ord dt ct rt) (gcost_of gt) is_r2 t n
-    | QMp t m _ => @mp_grdp FloatNum n f_eps (dist_of dt) (prio_fn ord dt ct rt) (gcost_of gt) is_r2 t n m
-    | QMin ts m _ => @min_point_rdp FloatNum n f_eps (dist_of dt) (prio_fn ord dt ct rt) (gcost_of gt) n ts m
+    | QGrdp t _ => @grdp FloatNum n f_eps (dist_of dt) (prio_fn ord pts dt ct) (gcost_of gt) is_r2 t n
+    | QMp t m _ => @mp_grdp FloatNum n f_eps (dist_of dt) (prio_fn ord pts dt ct) (gcost_of gt) is_r2 t n m
+    | QMin ts m _ => @min_point_rdp FloatNum n f_eps (dist_of dt) (prio_fn ord pts dt ct) (gcost_of gt) n ts m
     end.
   Definition q_out (q : query) : out_t := match q with QGrdp _ o | QMp _ _ o | QMin _ _ o => o end.
   Definition q_dom (q : query) : bool :=
@@ -45,30 +53,44 @@ Section Q.
     end.
 End Q.
 
-Definition model_sets (n : nat) (ord : order) (dt : dtab_t) (ct rt : ptab_t) : list (list nat) :=
-  map (fun k => red_of (@rdp_fixed FloatNum n f_eps (dist_of dt) (prio_fn ord dt ct rt) n k)) (seq 2 (n - 1)).
+Definition model_sets (n : nat) (ord : order) (pts : pts_t) (dt : dtab_t) (ct : ptab_t) : list (list nat) :=
+  map (fun k => red_of (@rdp_fixed FloatNum n f_eps (dist_of dt) (prio_fn ord pts dt ct) n k)) (seq 2 (n - 1)).
 
 (* result code = 100 * agree + holds.
    agree: 0 every query: model output = implementation output; 1 differs; 4 oracle entry missing for the model;
           5 a priority is NaN (sort order on NaN keys not modelled); 6 outside the domain (n < 2, NaN threshold)
    holds: 1 grdp is not the first accepting member of the chain, 2 mp_grdp <> S_max(k*, min(m,n)), 3 min_point_rdp,
+          4 lf.linear_fit_residuals_points is not the stated residual,
           8 global cost missing for a member of the implementation's chain, 9 the implementation's chain is malformed *)
-Definition judge (c : case) : Z :=
+Definition judge_part (c : part) : Z :=
   match c with
-  | CG n is_r2 ord dt ct rt gt chain qs =>
+  | PG n is_r2 ord pts dt ct rt gt chain qs =>
       if negb ((2 <=? n) && forallb (q_dom is_r2) qs) then 600%Z else
-      let ms := model_sets n ord dt ct rt in
-      let ordered := prios_ordered n ord dt ct rt in
-      let a := if negb (shapes_ok dt) then 1%Z
-               else if negb (segs_present n ord dt ct rt ms && forallb (has_set gt) ms) then 4%Z
+      let ms := model_sets n ord pts dt ct in
+      let ordered := prios_ordered n ord pts dt ct in
+      let a := if negb (shapes_ok dt && (length pts =? n)) then 1%Z
+               else if negb (segs_present n ord dt ct ms && forallb (has_set gt) ms) then 4%Z
                else if negb ordered then 5%Z
-               else if forallb (fun q => out_eqb (m_query n is_r2 ord dt ct rt gt q) (q_out q)) qs then 0%Z else 1%Z in
+               else if forallb (fun q => out_eqb (m_query n is_r2 ord pts dt ct gt q) (q_out q)) qs then 0%Z else 1%Z in
       let h := if negb ((length chain =? n - 1) &&
                         forallb (fun kS => (length (snd kS) =? fst kS)) (combine (seq 2 (n - 1)) chain)) then 9%Z
                else if negb (forallb (has_set gt) chain) then 8%Z
-               else Z.of_nat (first_nonzero (map (q_holds n is_r2 gt chain) qs)) in
+               else match first_nonzero (map (q_holds n is_r2 gt chain) qs) with
+                    | 0 => if resid_ok pts rt then 0%Z else 4%Z
+                    | c => Z.of_nat c
+                    end in
       (100 * a + h)%Z
   end.
+Definition judge (c : case) : Z :=
+  match c with
+  | CG n is_r2 ord pts dt ct rt gt chain qs => judge_part (PG n is_r2 ord pts dt ct rt gt chain qs)
+  | CSeq parts => merge_codes (map judge_part parts)
+  end.
 
-Definition show (c : case) : list out_t :=
-  match c with CG n is_r2 ord dt ct rt gt chain qs => map (m_query n is_r2 ord dt ct rt gt) qs end.
+Definition show_part (c : part) : list out_t :=
+  match c with PG n is_r2 ord pts dt ct rt gt chain qs => map (m_query n is_r2 ord pts dt ct gt) qs end.
+Definition show (c : case) : list (list out_t) :=
+  match c with
+  | CG n is_r2 ord pts dt ct rt gt chain qs => [show_part (PG n is_r2 ord pts dt ct rt gt chain qs)]
+  | CSeq parts => map show_part parts
+  end.
